@@ -71,7 +71,9 @@ impl Dual {
         let inv = 1.0 / o.v;
         let cond = o.vm * inv.abs(); // >= 1: relative uncertainty of the divisor
         Dual::lin(
-            self.v * inv,
+            // the quotient itself is the correctly rounded one (x * (1/y) can differ from x / y in the last bit,
+            // which an ill-conditioned continuation such as ln(e / e) amplifies without bound)
+            self.v / o.v,
             // (ordered so that huge exponentials do not overflow in intermediate products)
             self.vm * inv.abs() + (self.v.abs() * inv.abs()) * (o.vm * inv.abs()),
             &[(self, inv, inv.abs() * cond), (o, -(self.v * inv) * inv, (self.vm * inv.abs()) * inv.abs() * 2.0 * cond)],
